@@ -27,10 +27,66 @@ pub enum Proto {
     V4P,
 }
 
+const fn proto_enabled(p: Proto) -> bool {
+    match p {
+        Proto::V1L => cfg!(feature = "v1_local"),
+        Proto::V2L => cfg!(feature = "v2_local"),
+        Proto::V3L => cfg!(feature = "v3_local"),
+        Proto::V4L => cfg!(feature = "v4_local"),
+        Proto::V1P => cfg!(feature = "v1_public"),
+        Proto::V2P => cfg!(feature = "v2_public"),
+        Proto::V3P => cfg!(feature = "v3_public"),
+        Proto::V4P => cfg!(feature = "v4_public"),
+    }
+}
+const fn proto_wanted(p: Proto, local: bool, public: bool) -> bool {
+    let is_local = matches!(p, Proto::V1L | Proto::V2L | Proto::V3L | Proto::V4L);
+    proto_enabled(p) && ((is_local && local) || (!is_local && public))
+}
+const fn proto_count(local: bool, public: bool) -> usize {
+    let mut n = 0;
+    let mut i = 0;
+    while i < 8 {
+        if proto_wanted(Proto::EVERY[i], local, public) {
+            n += 1;
+        }
+        i += 1;
+    }
+    n
+}
+const fn proto_pick<const N: usize>(local: bool, public: bool) -> [Proto; N] {
+    let mut out = [Proto::V4L; N];
+    let mut n = 0;
+    let mut i = 0;
+    while i < 8 {
+        if proto_wanted(Proto::EVERY[i], local, public) {
+            out[n] = Proto::EVERY[i];
+            n += 1;
+        }
+        i += 1;
+    }
+    out
+}
+
 impl Proto {
-    pub const ALL: [Proto; 8] = [Proto::V1L, Proto::V2L, Proto::V3L, Proto::V4L, Proto::V1P, Proto::V2P, Proto::V3P, Proto::V4P];
-    pub const LOCAL: [Proto; 4] = [Proto::V1L, Proto::V2L, Proto::V3L, Proto::V4L];
-    pub const PUBLIC: [Proto; 4] = [Proto::V1P, Proto::V2P, Proto::V3P, Proto::V4P];
+    /// all eight protocols of the specification, whether or not this build of the harness (and of the crate) has them
+    pub const EVERY: [Proto; 8] = [Proto::V1L, Proto::V2L, Proto::V3L, Proto::V4L, Proto::V1P, Proto::V2P, Proto::V3P, Proto::V4P];
+    /// the protocols compiled into this build (all eight in the default build; a subset in the
+    /// feature-configuration builds)
+    pub const ALL: [Proto; proto_count(true, true)] = proto_pick::<{ proto_count(true, true) }>(true, true);
+    pub const LOCAL: [Proto; proto_count(true, false)] = proto_pick::<{ proto_count(true, false) }>(true, false);
+    pub const PUBLIC: [Proto; proto_count(false, true)] = proto_pick::<{ proto_count(false, true) }>(false, true);
+    pub const fn enabled(self) -> bool {
+        proto_enabled(self)
+    }
+    /// the feature set this harness was built with, e.g. "v1_local+v4_public" ("all" for the default build)
+    pub fn build_config() -> String {
+        if Proto::ALL.len() == 8 {
+            "all".to_string()
+        } else {
+            Proto::ALL.iter().map(|p| p.name().replace('.', "_")).collect::<Vec<_>>().join("+")
+        }
+    }
     pub fn header(self) -> &'static str {
         match self {
             Proto::V1L => "v1.local.",
@@ -1304,26 +1360,49 @@ macro_rules! public_proto {
     };
 }
 
+#[cfg(feature = "v1_local")]
 local_proto!(v1l, V1, no);
+#[cfg(feature = "v2_local")]
 local_proto!(v2l, V2, no);
+#[cfg(feature = "v3_local")]
 local_proto!(v3l, V3, yes);
+#[cfg(feature = "v4_local")]
 local_proto!(v4l, V4, yes);
+#[cfg(feature = "v1_public")]
 public_proto!(v1p, V1, no, rsa);
+#[cfg(feature = "v2_public")]
 public_proto!(v2p, V2, no, ed);
+#[cfg(feature = "v3_public")]
 public_proto!(v3p, V3, yes, p384);
+#[cfg(feature = "v4_public")]
 public_proto!(v4p, V4, yes, ed);
+
+/// a check asked for a protocol this feature-configuration build does not contain: a defect of the harness
+fn not_compiled_in(p: Proto) -> ! {
+    crate::report::machinery_error(&format!("protocol {} is not compiled into this build of the harness ({})", p.name(), Proto::build_config()))
+}
 
 macro_rules! dispatch {
     ($p:expr, $f:ident ( $($a:expr),* )) => {
         match $p {
+            #[cfg(feature = "v1_local")]
             Proto::V1L => v1l::$f($($a),*),
+            #[cfg(feature = "v2_local")]
             Proto::V2L => v2l::$f($($a),*),
+            #[cfg(feature = "v3_local")]
             Proto::V3L => v3l::$f($($a),*),
+            #[cfg(feature = "v4_local")]
             Proto::V4L => v4l::$f($($a),*),
+            #[cfg(feature = "v1_public")]
             Proto::V1P => v1p::$f($($a),*),
+            #[cfg(feature = "v2_public")]
             Proto::V2P => v2p::$f($($a),*),
+            #[cfg(feature = "v3_public")]
             Proto::V3P => v3p::$f($($a),*),
+            #[cfg(feature = "v4_public")]
             Proto::V4P => v4p::$f($($a),*),
+            #[allow(unreachable_patterns)]
+            other => not_compiled_in(other),
         }
     };
 }
